@@ -130,7 +130,7 @@ pub fn run(ctx: &Ctx) -> Report {
         "random connection histories (all roles, versions incl. undetermined, options, error/timeout/handshake-failure paths, hostile peer frames); \
          every returned event list is checked; non-trivial = the history produced at least one list containing RequestClose; classes = shape of the list that closed",
     );
-    let n = ctx.tier.pick(150_000, 2_000_000);
+    let n = ctx.tier.pick(400_000, 2_000_000);
     let (st, v) = search(ctx, "c19.history", n, || history(profile(), true, hostile_ops()), test);
     rep.absorb("histories", st, v, false);
     rep.assumptions.push("a list is one returned Vec<Event>: each recv call separately".into());
